@@ -43,6 +43,10 @@ var c06atoms = []string{"<", ">", "&", `\`, `"`, "u003c", `<`, `\\u003c`, `>`, `
 func c06str(r *rand.Rand) string {
 	var b strings.Builder
 	for i, n := 0, r.Intn(6); i < n; i++ {
+		if r.Intn(14) == 0 {
+			b.WriteString(autoString(r, "a")) // a literal of the tree under test
+			continue
+		}
 		b.WriteString(c06atoms[r.Intn(len(c06atoms))])
 	}
 	return b.String()
